@@ -35,13 +35,13 @@ impl OutputFormat for Atascii {
             while pos.x < line_length {
                 let attr_ch = buf.get_char(pos);
                 let mut ch = attr_ch.ch as u8;
-                if attr_ch.attribute.background_color > 0 {
-                    ch += 0x80;
-                }
-
-                // escape control chars
+                // escape control chars (decided before the inverse video bit is added: 0x9B..=0x9F and 0xFD..=0xFF are control codes, too)
                 if ch == b'\x1B' || ch == b'\x1C' || ch == b'\x1D' || ch == b'\x1E' || ch == b'\x1F' || ch == b'\x7D' || ch == b'\x7E' || ch == b'\x7F' {
                     result.push(b'\x1B');
+                }
+
+                if attr_ch.attribute.background_color > 0 {
+                    ch += 0x80;
                 }
 
                 result.push(ch);
